@@ -605,7 +605,10 @@ func (e stakingCustomPrecompiledContractRoRewardOf) Execute(_ corevm.ContractRef
 		return nil, err
 	}
 
-	resReward, err := distkeeper.NewQuerier(dk).DelegationRewards(ctx, &disttypes.QueryDelegationRewardsRequest{
+	// The distribution querier ends the validator's current reward period (a state write) to compute the
+	// pending reward; as gRPC query that write is discarded, so discard it here too: this method is read-only.
+	queryCtx, _ := ctx.CacheContext()
+	resReward, err := distkeeper.NewQuerier(dk).DelegationRewards(queryCtx, &disttypes.QueryDelegationRewardsRequest{
 		DelegatorAddress: sdk.AccAddress(delegatorAddr.Bytes()).String(),
 		ValidatorAddress: valAddrStr,
 	})
@@ -663,7 +666,10 @@ func (e stakingCustomPrecompiledContractRoRewardsOf) Execute(_ corevm.ContractRe
 }
 
 func (e stakingCustomPrecompiledContractRoRewardsOf) getTotalRewards(ctx sdk.Context, addr common.Address, bondDenom string) (sdkmath.Int, error) {
-	resRewards, err := distkeeper.NewQuerier(e.contract.keeper.distKeeper).DelegationTotalRewards(ctx, &disttypes.QueryDelegationTotalRewardsRequest{
+	// The distribution querier ends the current reward period of every delegated validator (a state write)
+	// to compute the pending rewards; discard that write, callers of this function are read-only methods.
+	queryCtx, _ := ctx.CacheContext()
+	resRewards, err := distkeeper.NewQuerier(e.contract.keeper.distKeeper).DelegationTotalRewards(queryCtx, &disttypes.QueryDelegationTotalRewardsRequest{
 		DelegatorAddress: sdk.AccAddress(addr.Bytes()).String(),
 	})
 	if err != nil {
